@@ -135,8 +135,13 @@ TcpSig(r, why) ==
   ELSE IF ~Contiguous(C) \/ ~Contiguous(T) THEN "tcp_bytes_misordered"
   ELSE IF GotUpTo(C) > SumSent(T, Len(T)) \/ GotUpTo(T) > SumSent(C, Len(C)) THEN "tcp_bytes_invented"
   ELSE IF Has(C \o T, LAMBDA e : e.ev = "timeout" /\ e.what = "write") THEN "tcp_stalled"
-  ELSE IF Has(C, EofTimeout) THEN (IF Closes(T) THEN "left_hanging" ELSE "halfclose_not_propagated")
-  ELSE IF Has(T, EofTimeout) THEN (IF Closes(C) THEN "close_not_propagated" ELSE "halfclose_not_propagated")
+       \* an endpoint gave up waiting for the end of the stream: after the peer CLOSED (or refused) it is the local
+       \* connection left hanging (or the target's), after a mere half-close it is the half-close that did not arrive;
+       \* which of the two it was is what the search found at its deepest point
+  ELSE IF Has(C \o T, EofTimeout)
+       THEN IF "ClosedNotHanging" \in why \/ ("HalfClose" \notin why /\ (Closes(T) \/ Closes(C)))
+            THEN (IF Has(C, EofTimeout) /\ Closes(T) THEN "left_hanging" ELSE "close_not_propagated")
+            ELSE "halfclose_not_propagated"
   ELSE IF "Complete" \in why THEN "tcp_bytes_lost"
   ELSE IF "HalfClose" \in why THEN (IF Has(C \o T, LAMBDA e : e.ev = "reset") THEN "unexpected_reset" ELSE "unexpected_eof")
   ELSE IF "Prefix" \in why THEN "tcp_bytes_invented"
